@@ -12,9 +12,9 @@ LEVEL = "proof"
 COQ_MODULES = []
 ASSUMPTIONS = [
     "partial: only the index arithmetic of modelled routines is proved; use-after-free, uninitialised reads and undefined casts are exhibited by sanitizer replays on explored inputs, not excluded by a theorem",
-    "the sanitizer build uses -fsanitize=address,undefined -fno-sanitize-recover=all; MSan (uninitialised reads) is not available for g++: determinism under MALLOC_PERTURB_ is used instead",
+    "the sanitizer build uses -fsanitize=address,undefined -fno-sanitize-recover=all -D_GLIBCXX_ASSERTIONS; MSan is not available for g++: uninitialised reads are looked for by determinism under MALLOC_PERTURB_ and by valgrind memcheck runs of femmcli (plain build) on a few problems",
 ]
-SAN_RE = re.compile(r"(ERROR: AddressSanitizer|runtime error:|ERROR: LeakSanitizer|AddressSanitizer:DEADLYSIGNAL|heap-buffer-overflow|stack-buffer-overflow|use-after-free)")
+SAN_RE = re.compile(r"(Assertion '[^']*' failed|ERROR: AddressSanitizer|runtime error:|ERROR: LeakSanitizer|AddressSanitizer:DEADLYSIGNAL|heap-buffer-overflow|stack-buffer-overflow|use-after-free)")
 EXT = {"fee": ".fee", "feh": ".feh", "fem": ".fem"}
 RES = {"fee": ".res", "feh": ".anh", "fem": ".ans"}
 SOLVER = {"fee": "esolver", "feh": "hsolver", "fem": "fsolver"}
@@ -143,6 +143,80 @@ def edit_replay(ctx, san, k, kind, ncopy):
     return None, txt
 
 
+def sample_inputs(ctx, san):
+    """the repository's own example problems (cfemm/*/test) through mesher and solver of the sanitizer build;
+    a non-zero exit status is acceptable here (some are error tests), a sanitizer / libstdc++ assertion
+    report or a signal is not"""
+    import glob
+    n = 0
+    for tdir in sorted(glob.glob(os.path.join(ctx.snap.src, "*", "test"))):
+        files = sorted(f for f in os.listdir(tdir) if f.endswith((".fem", ".fee", ".feh")))
+        if not files:
+            continue
+        wd = os.path.join(ctx.work, "samples_" + os.path.basename(os.path.dirname(tdir)))
+        os.makedirs(wd, exist_ok=True)
+        for f in files:
+            shutil.copy(os.path.join(tdir, f), wd)
+        for f in files:
+            kind = f[-3:]
+            base = os.path.join(wd, f[:-4])
+            n += 1
+            for tool, args in (("fmesher", [os.path.join(wd, f)]), (SOLVER[kind], [base])):
+                rc, rep, tail = run_tool(san, tool, args, wd, 0x6b, timeout=1200)
+                if rep or rc < 0:
+                    ctx.fail("memory safety: %s on the repository's example %s/%s: %s" %
+                             (tool, os.path.basename(os.path.dirname(tdir)), f, rep or ("killed by signal %d: %s" % (-rc, tail))),
+                             sample=os.path.join(os.path.basename(os.path.dirname(tdir)), "test", f), tool=tool,
+                             signature="sample:%s:%s" % (f, tool))
+                    break
+                if rc != 0:
+                    break
+    return n
+
+
+VG_TYPES = {"fee": list(range(0, 7)), "feh": list(range(0, 5)), "fem": list(range(0, 24))}
+
+
+def valgrind_post(ctx, plain, k, kind, axi, san=None):
+    """uninitialised reads (invisible to ASan/UBSan): femmcli of the plain build under valgrind memcheck,
+    analysis + every block integral type, line integrals, point values, conductor properties"""
+    from props import c13
+    p = c13.build(ctx.rng, kind, axi)
+    # one point property carried by several points (post-processing scratch arrays are sized from such counts)
+    pp = dict(fee=dict(name="pp", V=0.0, q=1e-10), feh=dict(name="pp", V=0.0, q=0.5), fem=dict(name="pp", A_re=0.0, I_re=0.25))[kind]
+    p["pointprops"].append(pp)
+    ox0, oy0, ox1, oy1 = p["outer"]
+    for fx, fy in ((0.45, 0.3), (0.45, 0.75), (0.95, 0.5)):
+        p["points"].append(dict(x=ox0 + (ox1 - ox0) * fx, y=oy0 + (oy1 - oy0) * fy, prop=len(p["pointprops"])))
+    wd = os.path.join(ctx.work, "vg%d" % k)
+    os.makedirs(wd, exist_ok=True)
+    f = os.path.join(wd, "prob" + EXT[kind])
+    femgen.write(p, f)
+    r1, r2 = p["regs"]
+    A = ((r1[0] + r1[2]) / 2, (r1[1] + r1[3]) / 2)
+    Bp = ((r2[0] + r2[2]) / 2, (r2[1] + r2[3]) / 2)
+    q = [("nodes",), ("point", A[0], A[1]), ("point", r1[0], r1[1])]
+    q += [("block", [A], t) for t in VG_TYPES[kind]] + [("block", [A, Bp], VG_TYPES[kind][-1])]
+    q += [("line", [(r1[0], r1[1]), (r1[2], r1[1]), (r1[2], r1[3])], t) for t in range(0, 3)]
+    q += [("cond", "c1")] if kind != "fem" else []
+    lua = os.path.join(wd, "post.lua")
+    open(lua, "w").write(femmrun.query_script(kind, f, q))
+    if san is not None:
+        rc, rep, tail = run_tool(san, "femmcli", ["--lua-script=" + lua], wd, 0x3c, timeout=1200)
+        if rep:
+            return "sanitizer report in femmcli (analysis + every block / line integral):\n" + rep, p
+        if rc != 0:
+            return "femmcli (sanitizer build) failed (rc=%d): %s" % (rc, tail), p
+    rc, out, err = vlib.sh(["valgrind", "--error-exitcode=97", "-q", "--track-origins=no", plain.tool("femmcli"), "--lua-script=" + lua],
+                           cwd=wd, timeout=3000)
+    m = re.search(r"==\d+== (Conditional jump or move depends on uninitialised|Use of uninitialised|Invalid (read|write)|Syscall param)[^\n]*(\n==\d+==[^\n]*){0,8}", err)
+    if rc == 97 or m:
+        return "valgrind memcheck report in femmcli (%s, %s):\n%s" % (kind, "axisymmetric" if axi else "planar", m.group(0) if m else err[-1500:]), p
+    if rc != 0:
+        return "femmcli under valgrind failed (rc=%d): %s" % (rc, (out + err)[-400:]), p
+    return None, p
+
+
 def correspond(ctx):
     rng = ctx.rng
     try:
@@ -178,13 +252,25 @@ def correspond(ctx):
         feats["edit-script"] = feats.get("edit-script", 0) + 1
         if msg:
             ctx.fail("memory safety: " + msg[:2500], script=txt.split("\n"), kind=kind, signature="edit-script:" + kind)
+    ns = sample_inputs(ctx, san)
+    n += ns
+    feats["repository-sample"] = ns
+    for k, (kind, axi) in enumerate([("fee", False), ("fem", False), ("feh", True)] if ctx.quick() else
+                                    [(kd, ax) for kd in ("fee", "fem", "feh") for ax in (False, True)]):
+        msg, p = valgrind_post(ctx, plain, k, kind, axi, san)
+        n += 1
+        feats["valgrind-post"] = feats.get("valgrind-post", 0) + 1
+        if msg:
+            ctx.fail("uninitialised / invalid memory use: " + msg[:2500], problem=p, signature="valgrind:" + kind)
     cov = ctx.res.cov
     cov["evaluations"] = n
     cov["distinct_nontrivial"] = n
     cov["rule"] = ("generated problems of every family used by the other checks (rectangles with interfaces / conductors, nested polygons, "
                    "circles and arcs, annuli, stadium; all file types) meshed, solved and post-processed by the ASan+UBSan build, each "
                    "twice with different MALLOC_PERTURB_ and byte-compared; Lua edit scripts with copy/mirror/rotate/move and repeated "
-                   "copies that grow the lists")
+                   "copies that grow the lists; the repository's own example problems through mesher and solver of the sanitizer "
+                   "build (libstdc++ assertions on); femmcli of the plain build under valgrind memcheck (analysis, every block "
+                   "integral type, line integrals, point values) for uninitialised reads")
     cov["input_distribution"] = feats
     cov["samples"] = samples
     return []
